@@ -534,10 +534,27 @@ func main() {
 		}
 		blocks := R.Range(3, 9)
 		dead := false
+		// the first world of every run is directed: contracts whose receipts / state depend on what the process
+		// remembers (event numbering, the block context) are created, used, the replica is restarted, and they
+		// are used again - whatever the random stream of this run reaches
+		var script [][]string
+		if s == 0 {
+			script = [][]string{
+				{"create 0 logger", "create 1 env"},
+				{"call 0 c0:0", "call 1 c1:0"},
+				{"kv 2"},
+				{"call 0 c0:0", "call 1 c1:0", "call 0 c0:0"},
+				{"call 1 c1:0", "call 0 c0:0"},
+			}
+			blocks = len(script)
+		}
 		for b := 0; b < blocks && !dead; b++ {
 			ntx := R.Intn(7)
 			if R.Chance(15) {
 				ntx = 0
+			}
+			if script != nil {
+				ntx = len(script[b])
 			}
 			tmp := append([]uint64{}, nonces...) // expected nonces while the block is put together
 			var specs []map[string]string
@@ -554,7 +571,24 @@ func main() {
 					bump = false
 				}
 				op := ""
-				switch c := R.Intn(100); {
+				c100 := R.Intn(100)
+				if script != nil {
+					f := strings.Fields(script[b][t])
+					from = int(nodeimpl.Atoi(f[1]))
+					nonce, bump = tmp[from], true
+					switch f[0] {
+					case "create":
+						op = fmt.Sprintf("tx kind=create from=%d nonce=%d value=0 gas=200000 price=0 data=%s", from, nonce, codes[f[2]])
+						created = append(created, fmt.Sprintf("c%d:%d", from, nonce))
+					case "call":
+						op = fmt.Sprintf("tx kind=call from=%d nonce=%d to=%s value=0 gas=100000 price=0 data=", from, nonce, f[2])
+					default:
+						op = fmt.Sprintf("tx kind=kv from=%d nonce=%d value=0 gas=0 price=0 key=01 val=02 rlpok=1", from, nonce)
+					}
+					c100 = 1000
+				}
+				switch c := c100; {
+				case c == 1000:
 				case c < 22: // plain call to a key / precompile / created contract
 					to := fmt.Sprintf("k%d", R.Intn(nKeys))
 					if R.Chance(30) {
@@ -696,7 +730,7 @@ func main() {
 				}
 			}
 			_ = lastInvalid
-			if R.Chance(35) {
+			if R.Chance(35) || (script != nil && b == 1) {
 				do("restart")
 				r.Count("restart")
 			}
